@@ -246,14 +246,19 @@ nni_dialer_init(nni_dialer *d, nni_sock *s, nni_sp_tran *tran)
 
 	rv = d->d_ops.d_init(dp, &d->d_url, d);
 
-	if (rv == 0) {
-		rv = nni_sock_add_dialer(s, d);
-	}
-
+	// Get the id first: once the dialer is on the socket's list a failure
+	// here could no longer be undone by just destroying it.
 	if (rv == 0) {
 		nni_mtx_lock(&dialers_lk);
 		rv = nni_id_alloc32(&dialers, &d->d_id, d);
 		nni_mtx_unlock(&dialers_lk);
+	}
+
+	if ((rv == 0) && ((rv = nni_sock_add_dialer(s, d)) != 0)) {
+		nni_mtx_lock(&dialers_lk);
+		nni_id_remove(&dialers, d->d_id);
+		nni_mtx_unlock(&dialers_lk);
+		d->d_id = 0;
 	}
 
 	if (rv == 0) {
